@@ -164,8 +164,17 @@ class EmitV3(V3Unit):
         FA = rfc.Forms("any", ctx)
         stats = Obj(get_cls(rt, interp, "x690.types:ObjectIdentifier"), {"pyvalue": USM_STATS_UNKNOWN_ENGINE, "_raw_bytes": b""})
         report_vbs = [] if self.reply == "no-bindings" else [(SOid(rt.oid.lit(interp, stats)), WVal(counter))]
+        if self.reply == "ill-typed-boots":
+            # a reply that still decodes: msgAuthoritativeEngineBoots is sent as an OCTET STRING
+            secp = rfc.t_seq([rfc.t_octets(E, FA), rfc.t_octets(ctx.fresh_bytes("boots_as_octets"), FA), rfc.t_int(Tm, FA),
+                              rfc.t_octets(b"", FA), rfc.t_octets(b"", FA), rfc.t_octets(b"", FA)], FA)
+        elif self.reply == "ill-typed-time":
+            secp = rfc.t_seq([rfc.t_octets(E, FA), rfc.t_int(B, FA), rfc.t_octets(ctx.fresh_bytes("time_as_octets"), FA),
+                              rfc.t_octets(b"", FA), rfc.t_octets(b"", FA), rfc.t_octets(b"", FA)], FA)
+        else:
+            secp = rfc.usm_params(E, B, Tm, b"", b"", b"", FA)
         reply = rfc.v3_message(reply_msgid, ctx.fresh_int("agent_max_size"), 0, 3,
-                               rfc.usm_params(E, B, Tm, b"", b"", b"", FA),
+                               secp,
                                rfc.scoped_pdu(E, b"", rfc.pdu(rfc.REPORT, ctx.fresh_int("report_rid"), 0, 0, report_vbs, FA), FA), FA)
         ctx.assume(And(SInt(z3.Int("report_flags!0")) >= 0, SInt(z3.Int("report_flags!0")) < 4) if False else True)
 
@@ -273,6 +282,12 @@ class EmitV3(V3Unit):
                       set(mproc.fields) - w_before <= {"security_model"} and mproc.fields.get("disco") is None)
         if self.reply == "no-bindings":
             chk(("C12",), DISC, "raises", "a-discovery-reply-without-bindings-is-refused", exc is not None and exc_is(exc, snmp) and len(sent) == 1)
+            return "refused"
+        if self.reply.startswith("ill-typed"):
+            # C20: the datagram must be refused here, while the client can still start over - not be stored and make
+            # every later request fail
+            ctx.check(oname("C20", DISC, "raises", "a-discovery-reply-with-ill-typed-engine-timing-is-refused"),
+                      exc is not None and len(sent) == 1 and mproc.fields.get("disco") is None)
             return "refused"
         if len(sent) == 1:
             chk(("C07", "C12", "C05"), DISC, "raises", "only-InvalidResponseId-and-only-for-a-foreign-message-id",
@@ -398,6 +413,8 @@ def units_emit(tier):
     us.append(EmitV3("authNoPriv-md5", "multiset", 2, True))
     us.append(EmitV3("noAuthNoPriv", "multiget", 1, True))
     us.append(EmitV3("authNoPriv-md5", "multiget", 1, False, reply="no-bindings"))
+    us.append(EmitV3("authNoPriv-md5", "multiget", 1, False, reply="ill-typed-boots"))
+    us.append(EmitV3("noAuthNoPriv", "multiget", 1, False, reply="ill-typed-time"))
     us.append(EmitV3("authPriv-md5", "multiget", 1, False, interference=True))
     us.append(EmitV3("authPriv-sha1", "multiset", 1, True, interference=True))
     us.append(EmitV3("noAuthNoPriv", "bulkget", 1, False, interference=True))
@@ -520,7 +537,7 @@ class ReceiveV3(V3Unit):
         if mode == "authentic-minimal":
             self.props = ("C10", "C06") + (("C11",) if priv else ())
         elif mode == "any-error":
-            self.props = ("C08", "C20") + (("C11",) if priv and encrypted else ())
+            self.props = ("C08", "C20") + (("C09",) if hashname else ()) + (("C11",) if priv and encrypted else ())
         else:
             self.props = ("C06", "C08", "C20") + (("C09",) if hashname else ()) + (("C11",) if priv and encrypted else ())
         self.name = "v3 %s incoming[%s %s, %d bindings, %s%s]" % (
@@ -692,6 +709,12 @@ class ReceiveV3(V3Unit):
         if exc_is(exc, err):
             chk(("C08",), T, "raises", "ErrorResponse-only-for-a-non-zero-status-and-carrying-it",
                 And(Not(es.eq(0)), interp.eq(exc.fields.get("error_status"), es)))
+            if hashname:
+                # an agent error status is CONTENT: acting upon it (a NoSuchOID ends a walk silently) needs an authentic message
+                mi = mac_input()
+                valid = interp.eq(authp, SBytes(rt.f_prefix(rt.f_hmac(hname, kul, w.z(mi)), z3.IntVal(12))))
+                chk(("C09",), USM, "raises", "an-agent-error-status-surfaces-only-from-an-authenticated-message",
+                    And(auth_bit, valid, interp.eq(user, own_user)))
             return "raises:ErrorResponse"
         # any other exception refuses the message; a status must not be swallowed into another error once the
         # message got through authentication and decryption
